@@ -48,9 +48,11 @@ def bind_call(call, callee):
     return binding, star
 
 
-def operand_of(expr, op, func):
+def operand_of(expr, op, func, _depth=0):
     """which child operand an argument expression denotes: x.data / x.data.T / x.shape / local alias of those.
     returns (child name, accessor) or None"""
+    if _depth > 8:
+        return None
     e = inline_expr(func.node, expr) if isinstance(expr, ast.Name) and expr.id in single_bindings(func.node) and not isinstance(single_bindings(func.node)[expr.id], ast.IfExp) else expr
     acc = []
     while isinstance(e, ast.Attribute):
@@ -65,7 +67,7 @@ def operand_of(expr, op, func):
             if kind != 'assign':
                 continue
             v = val.body if isinstance(val, ast.IfExp) else val
-            r = operand_of(v, op, func)
+            r = operand_of(v, op, func, _depth + 1)
             if r:
                 return r[0], (r[1] + ('.' + '.'.join(reversed(acc)) if acc else ''))
     if isinstance(e, ast.ListComp) and isinstance(e.elt, ast.Attribute):
@@ -179,8 +181,11 @@ def _check_op(model, R, op, P):
         if len(op.fwd_calls) > 1:
             fc = opcat._cond_text(op.cfg, _stmt_of(func.node, fcall))
             bc = opcat._cond_text(op.closure_cfg[cl.qualname], _stmt_of(cl.node, call))
-            R.ob(P + '.PAIR', op.qual, '%s under [%s] / %s under [%s]' % (sib, fc, bname, bc), fc == bc,
-                 'forward and backward kernels must be selected by the same predicate', _loc(op, call))
+            f1 = opcat.cond_formula(func.node, op.cfg, _stmt_of(func.node, fcall))
+            f2 = opcat.cond_formula(cl.node, op.closure_cfg[cl.qualname], _stmt_of(cl.node, call))
+            same, how = (False, 'condition not parsed') if f1 is None or f2 is None else opcat.cond_equivalent(f1, f2)
+            R.ob(P + '.PAIR', op.qual, '%s under [%s] / %s under [%s]' % (sib, fc, bname, bc), same,
+                 'forward and backward kernels must be selected by the same predicate (%s)' % how, _loc(op, call))
         bkf = kernel_func(model, d)
         bbinding, bstar = bind_call(call, bkf)
         # ---- SAVED
@@ -429,15 +434,37 @@ def _concat_sections(op, func, cl, arg):
     return ok, 'sections must be computed by the wrapper from the operands'
 
 def _bn_track(op, func, cl, arg):
-    # track_running_stats = running_mean is not None and running_var is not None
-    if not isinstance(arg, ast.Name):
-        return False, 'unrecognised'
-    asg = opcat._assignments(cl.node, arg.id) or opcat._assignments(func.node, arg.id)
-    if len(asg) != 1:
-        return False, 'track_running_stats must have one binding'
-    t = norm(asg[0][1])
-    ok = 'running_mean is not None' in t and 'running_var is not None' in t and ' and ' in t and ' or ' not in t and 'not (' not in t
-    return ok, 'track_running_stats must be `running_mean is not None and running_var is not None` (got %s)' % t
+    """the flag handed to batch_norm_backward is True exactly when both running buffers were given: the closure is evaluated for the four
+    combinations of (running_mean, running_var) in {None, a tensor}"""
+    from .peval import PE
+    from .poly import P
+    from .report import Incomplete
+    model = op.model
+    kb = model.func('synapgrad.cpu_ops.batch_norm_backward')
+    bad = []
+    for rm in (False, True):
+        for rv in (False, True):
+            env = {p: P.atom(p) for p in func.params}
+            env['running_mean'] = P.atom('running_mean') if rm else None
+            env['running_var'] = P.atom('running_var') if rv else None
+            try:
+                pe = PE(model, atoms_not_none=True, default_pred=lambda t: True if 'Device.CPU' in t else (False if 'requires_grad' in t else None))
+                outs = pe.paths(cl, {}, outer_env=env, max_paths=32)
+            except Incomplete as u:
+                return False, 'closure not evaluable: %s' % u
+            seen = False
+            for o in outs:
+                for t, a_, kw, node in o.calls:
+                    if t == kb.qualname:
+                        bnd = dict(zip(kb.pos_params, a_))
+                        bnd.update(kw)
+                        v = bnd.get('track_running_stats')
+                        seen = True
+                        if not (isinstance(v, bool) and v == (rm and rv)):
+                            bad.append('running_mean %s, running_var %s -> %r' % ('given' if rm else 'None', 'given' if rv else 'None', v))
+            if not seen:
+                bad.append('no batch_norm_backward call when running_mean %s, running_var %s' % ('given' if rm else 'None', 'given' if rv else 'None'))
+    return not bad, 'track_running_stats must be (running_mean is not None and running_var is not None); got %s' % bad[:2]
 
 ONE_SIDED = {
     ('synapgrad.functional.unbind', 'index'): _unbind_index,
